@@ -11,6 +11,9 @@ TREE_FUNCS = [(GT, 'new group'), (GT, 'extend flag'), ('sqlparse.sql.TokenList._
               ('sqlparse.sql.Token.__init__', 'body')]
 GM = 'sqlparse.engine.grouping._group_matching'
 MATCHER_FUNCS = [(GM, c) for c in ('Parenthesis', 'SquareBrackets', 'Case', 'If', 'For', 'Begin')]
+PASS_FUNCS = [('sqlparse.engine.grouping.' + n, 'call sites') for n in (
+    'group_identifier', 'group_over', 'group_aliased', 'group_order', 'align_comments', 'group_comments', 'group_values',
+    'group_functions', 'group_where')]
 NAV_FUNCS = [('sqlparse.sql.TokenList._token_matching', 'forward, end=None'),
              ('sqlparse.sql.TokenList._token_matching', 'reverse'),
              ('sqlparse.sql.TokenList.token_next', 'forward'), ('sqlparse.sql.TokenList.token_next', 'reverse (token_prev)'),
